@@ -2,4 +2,4 @@ From Coq Require Import Extraction ExtrOcamlBasic.
 From CAres.Core Require Import Search.
 Extraction Language OCaml.
 Extraction "../ocaml/gen/SearchModel.ml" lookup_hostaliases search_name_list search_run search_int ai_run
-  spec_candidates spec_queried spec_status ai_status is_onion_domain strip_none ai2_run ai2_combine.
+  spec_candidates spec_queried spec_status ai_status is_onion_domain strip_none ai2_run ai2_combine ai2_combine_pinned cand_single.
